@@ -3,9 +3,24 @@
 Every entry is keyed by (category of the object type, member/operator name) and produces a C
 expression over the shims in /verif/shims.  No entry => Unsupported (exit 2).
 """
+import re
 from cxx2c import Unsupported
 
 class Lib:
+    def xform_tag(self, fn_text):
+        # every lambda that does the same thing (std::tolower on each character) gets the same tag, so that the lower-cased
+        # class of a name is the same wherever it is computed; anything else gets a tag of its own
+        tags = self.__dict__.setdefault('_xform_tags', {})
+        node = None
+        for c in self.tr.fn_nodes:
+            if self.tr.cname_of.get(c.get('id')) == fn_text: node = c; break
+        key = fn_text
+        if node is not None:
+            import json
+            txt = json.dumps(node)
+            if '"tolower"' in txt and txt.count('"CallExpr"') == 1: key = 'tolower'
+        if key == 'tolower': return 0
+        return tags.setdefault(key, len(tags) + 1)
     def __init__(self, tr):
         self.tr = tr
 
@@ -181,17 +196,19 @@ class Lib:
             body = ('static inline %s %s(%s b, %s e) {\n'
                     '  while (b.base != e.base)\n'
                     '    __CPROVER_assigns(b.base)\n'
-                    '    __CPROVER_loop_invariant(__CPROVER_same_object(b.base, e.base) && __CPROVER_POINTER_OFFSET(b.base) >= __CPROVER_POINTER_OFFSET(e.base) && (__CPROVER_POINTER_OFFSET(b.base) - __CPROVER_POINTER_OFFSET(e.base)) %% sizeof(*b.base) == 0)\n'
+                    '    __CPROVER_loop_invariant(__CPROVER_same_object(b.base, e.base) && __CPROVER_POINTER_OFFSET(b.base) >= __CPROVER_POINTER_OFFSET(e.base) && (__CPROVER_POINTER_OFFSET(b.base) - __CPROVER_POINTER_OFFSET(e.base)) %% sizeof(*b.base) == 0 && __CPROVER_POINTER_OFFSET(b.base) <= __CPROVER_POINTER_OFFSET(__CPROVER_loop_entry(b.base)))\n'
                     '    __CPROVER_decreases(__CPROVER_POINTER_OFFSET(b.base) - __CPROVER_POINTER_OFFSET(e.base))\n'
-                    '  { if (%s(b.base - 1)) return b; b.base = b.base - 1; }\n'
+                    '  { b.base = e.base + (__CPROVER_POINTER_OFFSET(b.base) - __CPROVER_POINTER_OFFSET(e.base)) / sizeof(*b.base); /* re-anchor the havocked pointer (DESIGN 0a (a)) */\n'
+                    '    if (%s(b.base - 1)) return b; b.base = b.base - 1; }\n'
                     '  return e; }') % (ity, name, ity, ity, pred)
         elif cat in ('iter', 'ptr'):
             body = ('static inline %s %s(%s b, %s e) {\n'
                     '  while (b != e)\n'
                     '    __CPROVER_assigns(b)\n'
-                    '    __CPROVER_loop_invariant(__CPROVER_same_object(b, e) && __CPROVER_POINTER_OFFSET(b) <= __CPROVER_POINTER_OFFSET(e) && (__CPROVER_POINTER_OFFSET(e) - __CPROVER_POINTER_OFFSET(b)) %% sizeof(*b) == 0)\n'
+                    '    __CPROVER_loop_invariant(__CPROVER_same_object(b, e) && __CPROVER_POINTER_OFFSET(b) <= __CPROVER_POINTER_OFFSET(e) && (__CPROVER_POINTER_OFFSET(e) - __CPROVER_POINTER_OFFSET(b)) %% sizeof(*b) == 0 && __CPROVER_POINTER_OFFSET(b) >= __CPROVER_POINTER_OFFSET(__CPROVER_loop_entry(b)))\n'
                     '    __CPROVER_decreases(__CPROVER_POINTER_OFFSET(e) - __CPROVER_POINTER_OFFSET(b))\n'
-                    '  { if (%s(b)) return b; b = b + 1; }\n'
+                    '  { b = e - (__CPROVER_POINTER_OFFSET(e) - __CPROVER_POINTER_OFFSET(b)) / sizeof(*b); /* re-anchor the havocked pointer (DESIGN 0a (a)) */\n'
+                    '    if (%s(b)) return b; b = b + 1; }\n'
                     '  return e; }') % (ity, name, ity, ity, pred)
         else:
             raise Unsupported('%s: find_if over %r' % (P.cname, t))
@@ -499,7 +516,22 @@ class Lib:
         if name == 'count' and len(args) == 3 and self.tr.category(P.ty(args[0])) in ('iter', 'ptr'):
             return 'shim_count_char(%s, %s, %s)' % (P.ex(args[0]), P.ex(args[1]), P.ex(args[2]))
         if name == 'transform' and len(args) == 4 and self.tr.category(P.ty(args[0])) in ('iter', 'ptr'):
-            return 'shim_transform_char(%s, %s, %s, %s)' % tuple(P.ex(a) for a in args)
+            a = [P.ex(x) for x in args]
+            byref = False
+            for c in self.tr.fn_nodes:
+                if self.tr.cname_of.get(c.get('id')) == a[3]:
+                    ps = self.tr.fn_params(c)
+                    byref = bool(ps) and self.tr.tparse(ps[0]['type']).is_ref()
+                    break
+            if byref:
+                # the mapping function takes its character by reference (char&): pass the address of the source character
+                a[3] = '(char (*)(char))0, ' + a[3]
+            m = re.match(r"^\((.+)\.data \+ (.+)\.len\)$", a[1])
+            if a[0] == a[2] and a[0].endswith('.data') and m and m.group(1) == m.group(2) == a[0][:-5]:
+                # in-place transform of a whole std::string: the content class of the string changes with it; the new class is a
+                # function of the old one and of the mapping (uninterpreted function, one per mapping function)
+                return 'str_transform_inplace(&(%s), %s, %d)' % (m.group(1), a[3] if byref else a[3] + ', (char (*)(char *))0', self.xform_tag(a[3].split(', ')[-1] if byref else a[3]))
+            return 'shim_transform_char2(%s, %s, %s, %s)' % (a[0], a[1], a[2], a[3] if byref else a[3] + ', (char (*)(char *))0')
         if name in ('zero',) and not args and self.tr.category(P.ty(n)) == 'chrono':
             return '0L'
         if name == 'now' and not args:
